@@ -209,6 +209,32 @@ def regex_family():
             yield [("M", {}, SEQ(A("p", "=", RE(pat)), A("q", "=", REF(bt))))], ["%s %s" % (x, v) for x in samples for v in vals]
 
 
+def refpeg_can_print(g):
+    try:
+        refpeg.to_text(g)
+        return True
+    except Exception:
+        return False
+
+
+def matchsep_family():
+    """a match rule (or a group) ending in a separated repetition, followed by one more separator that belongs to the caller; suppression written
+    inside single-element parentheses"""
+    A = gramgen.A_
+    RE, REF, L, SEQ, ALT = gramgen.RE, gramgen.REF, gramgen.L, gramgen.SEQ, gramgen.ALT
+    for rep in ("plus", "star"):
+        for sep, s in ((L("."), "."), (RE(",|;"), ",")):
+            F = ("F", {}, (rep, REF("ID"), sep, False) if rep == "plus" else SEQ(L("f"), (rep, REF("ID"), sep, False)))
+            lead = [] if rep == "plus" else ["f"]
+            texts = [" ".join(lead + t) for t in (["x"], ["x", s, "x"], ["x", s, "x", s, "k"], ["x", s, "k"], ["x", s], [s, "k"], ["x", s, "x", s])]
+            yield [("M", {}, SEQ(A("n", "=", REF("F")), ("opt", SEQ(sep, A("all", "?=", L("k")))))), F], texts
+            yield [("M", {}, SEQ(A("n", "+=", REF("F")), ("opt", SEQ(sep, L("k"))))), F], texts
+    # suppression inside parentheses around a single element
+    q = L("q")
+    yield [("M", {}, A("v", "=", REF("Q"))), ("Q", {}, SEQ(("sup", q), REF("ID"), ("sup", q)))], ["q x q", "qxq", "x", "q x"]
+    yield [("M", {}, A("v", "=", REF("Q"))), ("Q", {}, SEQ(("grp", ("sup", q)), REF("ID"), ("grp", ("sup", q))))], ["q x q", "qxq", "x", "q x"]
+
+
 def work_regex(arg):
     u = Unit()
     for g, texts in arg:
@@ -242,6 +268,7 @@ def run(ctx):
     ctx.pmap(work_rec, [(ctx.tier, rec[i:i + 25]) for i in range(0, len(rec), 25)])
     nb["rule-graph-family"] = len(rec)
     rg = list(regex_family())
+    rg += [x for x in matchsep_family() if refpeg_can_print(x[0])]
     ctx.pmap(work_regex, [rg[i:i + 6] for i in range(0, len(rg), 6)])
     nb["regex-group-family"] = len(rg)
     return {
